@@ -373,6 +373,28 @@ def run(ctx):
           for s_ in (8 * n, 8 * n + 4, l - 4, l, l + 4) for e_ in (8 * n, 8 * n + 4, l - 4, l, l + 4)],
          lambda n, len, off, s, e: len % 4 == 0 and len >= 8 * n and off % 4 == 0 and off <= len - 8 * n and s <= e <= len),
     ]
+    def cursor_within(rel):
+        """Lt(len(B), position(C)) is infeasible when C is the cursor over B built by the caller and nothing calls set_position on it on
+        the way: std's Read for Cursor advances by the bytes delivered, which end at the buffer's end."""
+        if rel[0] != "Lt" or rel[1] != MLEN:
+            return False
+        pos = uncast(rel[2])
+        if not (is_call(pos) and callee_name(pos[1]) == "position" and "Cursor" in pos[1] and pos[2] and pos[2][0] == ("param", mt.path, 3)):
+            return False
+        if any(callee_name(t["fn"].get("path", "")) == "set_position" for _, t in mt.calls()):
+            return False
+        for bb, t in fb.calls():
+            if strip_generics(t["fn"].get("path", "")) == mt.path:
+                a = bev.call_args(bb)
+                cur = values.strip_payload(a[2])
+                # the cursor object: created by Cursor::new(bytes) in from_bytes
+                news = [b2 for b2, t2 in fb.calls() if callee_name(t2["fn"].get("path", "")) == "new" and "Cursor" in t2["fn"].get("path", "")]
+                ok_new = len(news) == 1 and bev.call_args(news[0])[0] == a[1]
+                setp = [b2 for b2, t2 in fb.calls() if callee_name(t2["fn"].get("path", "")) == "set_position" and fb.reaches(b2, bb)]
+                if not ok_new or setp:
+                    return False
+        return True
+
     SHORT_READ = ("read_u32", "read_exact", "read_to_end", "read_u64", "read_u16", "read_u8", "read")
     PROPAGATED = {"from_wire": "unknown tag (Tag::from_wire, table checked by rule 1)", "add_field": "tag order (add_field, guard checked by rule 2)",
                   "single_tag_message": "the single-tag decoder's own rejections", "multi_tag_message": "the multi-tag decoder's own rejections"}
@@ -404,6 +426,32 @@ def run(ctx):
                     while isinstance(src, tuple) and src[0] in ("vfield", "field"):
                         src = src[1]
                     nm = callee_name(src[1]) if is_call(src) else "?"
+                    synth = None
+                    if nm in ("ok_or", "ok_or_else") and is_call(src) and src[2]:
+                        # `a.checked_sub(b).ok_or(err)?` rejects exactly when a < b: judged like an explicit `if a < b { return Err(..) }`
+                        inner = values.strip_payload(W.expand(src[2][0]))
+                        if is_call(inner) and callee_name(inner[1]) == "checked_sub" and "core::num" in inner[1] and len(inner[2]) == 2:
+                            synth = ("Lt", inner[2][0], inner[2][1])
+                    if synth is not None:
+                        verdicts = []
+                        for (p_, rels) in flow.path_conditions(fn, e, FIN, bl.idx, ef):
+                            rels = list(rels) + [synth]
+                            wit, used = rejection_witness(rels, roles, grid, consistent)
+                            env0 = {roles[k_]: 0 for k_ in roles}
+                            if cursor_within(synth):
+                                verdicts.append((True, "never taken: a Cursor that is only read from does not move past the end of its buffer"))
+                            elif rel_holds(synth, env0) is None:
+                                verdicts.append((False, "its condition %s(%s, %s) is over quantities the checker does not know" % (synth[0], fmt(synth[1])[:50], fmt(synth[2])[:50])))
+                            elif used and wit is None:
+                                verdicts.append((True, "checked_sub fails only for inputs the reference rejects"))
+                            else:
+                                verdicts.append((False, "taken for %s, which the reference decoder accepts" % (wit,)))
+                        k = "%s/rejects" % short
+                        ordn[k] = ordn.get(k, 0) + 1
+                        bad = [v for v in verdicts if not v[0]]
+                        ctx.check("rejections-justified", "%s#%d" % (k, ordn[k]), not bad, "; ".join(sorted({v[1] for v in verdicts})),
+                                  "%s returns an error that the reference decoder does not: %s" % (short, "; ".join(v[1] for v in bad)), fn.loc(bl.idx))
+                        continue
                     why = "input ends before the bytes being read (Cursor read)" if nm in SHORT_READ else PROPAGATED.get(nm)
                     k = "%s/propagates/%s" % (short, nm)
                     ordn[k] = ordn.get(k, 0) + 1
@@ -412,11 +460,12 @@ def run(ctx):
                               fn.loc(bl.idx))
                     continue
                 verdicts = []
-                for (p_, rels) in flow.path_conditions(fn, e, FIN, bl.idx, ef):
+                arm = flow.arm_entry(fn, e, bl.idx)     # look past `trace!(..)` / `debug!(..)` diamonds inside the rejecting arm
+                for (p_, rels) in flow.path_conditions(fn, e, FIN, arm, ef):
                     # the guard proper: the facts of the branch edge that enters this block
                     guard = []
                     if p_ is not None:
-                        for f in ef.get((p_, bl.idx), ()):
+                        for f in ef.get((p_, arm), ()):
                             guard.extend(flow.relational(f))
                     idiom = None
                     unknown = []
